@@ -127,6 +127,10 @@ pub struct PageInfo {
     pub kind: String,
     /// (child page, stored child checksum) pairs found inside the covered prefix
     pub links: Vec<(Pn, u128)>,
+    /// the pointer as the model sees it (page number + the context the page is read in) and the
+    /// links in the same vocabulary
+    pub mptr: String,
+    pub mlinks: Vec<(String, u128)>,
     pub parent_sum: u128,
     pub sum_ok: bool,
     pub savepoint_only: bool,
@@ -146,6 +150,21 @@ pub struct Decoded {
     pub covered: Vec<bool>,
     pub all_sums_ok: bool,
     pub tables: Vec<String>,
+}
+
+/// Model pointer: the on-disk page number followed by the context that determines how the page is
+/// decoded (fixed key width, fixed value width, kind of values).  In an intact file every page is reached
+/// in one context only; in a damaged file the same page may be reached in two, and its covered prefix
+/// differs between them, so the contexts must be distinct pointers of the (single-valued) model image.
+fn mptr(pn: Pn, fk: Option<usize>, fv: Option<usize>, vk: ValKind) -> String {
+    let w = |x: Option<usize>| x.map(|v| (v as u64 + 1) & 0xffff_ffff).unwrap_or(0);
+    let (code, extra) = match vk {
+        ValKind::Defs => (1, 0),
+        ValKind::Dyn(vw) => (2, w(vw)),
+        ValKind::Savepoints => (3, 0),
+        ValKind::Plain => (4, 0),
+    };
+    format!("{}{:08x}{:08x}{:x}{:08x}", pn.num(), w(fk), w(fv), code, extra)
 }
 
 #[derive(Clone, Copy)]
@@ -382,7 +401,9 @@ impl Walk<'_> {
             self.errors.push(format!("{label}: page {} outside layout", pn.id()));
             return;
         };
-        if self.d.pages.iter().any(|p| p.pn == pn) {
+        let me = mptr(pn, fk, fv, vk);
+        let seen = if self.lenient { self.d.pages.iter().any(|p| p.mptr == me) } else { self.d.pages.iter().any(|p| p.pn == pn) };
+        if seen {
             if !self.savepoint_only && !self.lenient {
                 self.errors.push(format!("{label}: page {} referenced twice", pn.id()));
             }
@@ -407,6 +428,7 @@ impl Walk<'_> {
                     self.d.mark(off + s, e - s, &format!("{kind}/key"), cov);
                 }
                 let mut links = vec![];
+                let mut mlinks: Vec<(String, u128)> = vec![];
                 let mut subs: Vec<(Root, Option<usize>, Option<usize>, ValKind, String)> = vec![];
                 for (i, (s, e)) in leaf.vals.iter().enumerate() {
                     let v = &p[*s..*e];
@@ -443,6 +465,7 @@ impl Walk<'_> {
                                         } else {
                                             ("table".to_string(), ValKind::Plain, def.fv)
                                         };
+                                        mlinks.push((mptr(r.pn, def.fk, fv2, vk2), r.sum));
                                         subs.push((r, def.fk, fv2, vk2, l2));
                                     }
                                 }
@@ -461,6 +484,7 @@ impl Walk<'_> {
                                 self.d.mark(off + s + 25, e - s - 25, &format!("{kind}/dc.subtree-len"), cov);
                                 let r = root_at(v, 1).unwrap();
                                 links.push((r.pn, r.sum));
+                                mlinks.push((mptr(r.pn, vw, Some(0), ValKind::Plain), r.sum));
                                 subs.push((r, vw, Some(0), ValKind::Plain, "subtree".to_string()));
                             }
                             _ => self.errors.push(format!("{label}: dynamic collection type {:?}", v.first())),
@@ -475,7 +499,7 @@ impl Walk<'_> {
                 }
                 self.d.mark(off + leaf.used, len - leaf.used, &format!("{kind}/beyond-used"), false);
                 let sum_ok = redb::verif::xxh3_128(&p[..leaf.used]) == sum;
-                self.d.pages.push(PageInfo { pn, offset: off, len, used: leaf.used, kind, links, parent_sum: sum, sum_ok, savepoint_only: self.savepoint_only });
+                self.d.pages.push(PageInfo { pn, offset: off, len, used: leaf.used, kind, links, mptr: me, mlinks, parent_sum: sum, sum_ok, savepoint_only: self.savepoint_only });
                 for (r, k, v, vk2, l2) in subs {
                     self.tree(r, k, v, vk2, &l2);
                 }
@@ -497,7 +521,8 @@ impl Walk<'_> {
                 self.d.mark(off + br.keys_at, br.used - br.keys_at, &format!("{kind}/key"), cov);
                 self.d.mark(off + br.used, len - br.used, &format!("{kind}/beyond-used"), false);
                 let sum_ok = redb::verif::xxh3_128(&p[..br.used]) == sum;
-                self.d.pages.push(PageInfo { pn, offset: off, len, used: br.used, kind, links: br.children.clone(), parent_sum: sum, sum_ok, savepoint_only: self.savepoint_only });
+                let mlinks = br.children.iter().map(|(c, s)| (mptr(*c, fk, fv, vk), *s)).collect();
+                self.d.pages.push(PageInfo { pn, offset: off, len, used: br.used, kind, links: br.children.clone(), mptr: me, mlinks, parent_sum: sum, sum_ok, savepoint_only: self.savepoint_only });
                 for (c, s) in br.children {
                     self.node(c, s, fk, fv, vk, label, depth + 1);
                 }
@@ -649,10 +674,10 @@ pub fn export_forest(b: &[u8], page_size: usize) -> R<String> {
         let raw = &b[sl_.base..sl_.base + SLOT_SIZE];
         let mut links = vec![];
         if let Some(r) = sl_.user {
-            links.push(format!("{}={}", r.pn.num(), sumhex(r.sum)));
+            links.push(format!("{}={}", mptr(r.pn, None, None, ValKind::Defs), sumhex(r.sum)));
         }
         if let Some(r) = sl_.system {
-            links.push(format!("{}={}", r.pn.num(), sumhex(r.sum)));
+            links.push(format!("{}={}", mptr(r.pn, None, None, ValKind::Defs), sumhex(r.sum)));
         }
         writeln!(
             s, "S {} {} {} {} {:x} {}", i, hexs(&raw[..SLOT_SUM]), hexs(&raw[SLOT_SUM..]),
@@ -660,20 +685,20 @@ pub fn export_forest(b: &[u8], page_size: usize) -> R<String> {
             if links.is_empty() { "-".to_string() } else { links.join(",") }
         ).unwrap();
     }
-    let mut seen: Vec<Pn> = vec![];
+    let mut seen: Vec<String> = vec![];
     // A pointer's covered prefix depends on the context it is reached in; where the two walks disagree
     // (only possible in a damaged file) the view of the slot that recovery selects first wins.
     let first_is_1 = select_slot(d0.god, &d0.slots) == Some(1);
     let (da, db) = if first_is_1 { (&d1, &d0) } else { (&d0, &d1) };
     for p in da.pages.iter().chain(db.pages.iter()).filter(|p| !p.savepoint_only) {
-        if seen.contains(&p.pn) {
+        if seen.contains(&p.mptr) {
             continue;
         }
-        seen.push(p.pn);
+        seen.push(p.mptr.clone());
         let payload = &b[p.offset..p.offset + p.used];
-        let links: Vec<String> = p.links.iter().map(|(pn, sum)| format!("{}={}", pn.num(), sumhex(*sum))).collect();
+        let links: Vec<String> = p.mlinks.iter().map(|(q, sum)| format!("{}={}", q, sumhex(*sum))).collect();
         writeln!(
-            s, "P {} {} {} {}", p.pn.num(), hexs(payload), sumhex(redb::verif::xxh3_128(payload)),
+            s, "P {} {} {} {}", p.mptr, hexs(payload), sumhex(redb::verif::xxh3_128(payload)),
             if links.is_empty() { "-".to_string() } else { links.join(",") }
         ).unwrap();
     }
